@@ -136,6 +136,86 @@ func distRules(variant int) []distRule {
 	return nil
 }
 
+// A traffic policy as far as the endpoint builder reads it (getSubsetTrafficPolicy -> outlier detection and
+// load-balancer settings).  Every policy with outlier detection also switches locality load balancing off, so
+// that failover priorities stay out of the picture.
+type polDesc struct {
+	set       bool  // the policy exists
+	outlier   bool  // outlierDetection present ...
+	minHealth int32 // ... with this minHealthPercent (> 0: unhealthy endpoints are never served by default)
+	lb        int   // 0: no loadBalancer field; 1: localityLbSetting.enabled = false; 2: localityLbSetting.distribute = dist
+	dist      []distRule
+}
+
+// A DestinationRule's policies: rule level, the rule level's portLevelSettings, subset level.
+type drDesc struct {
+	top     polDesc
+	topPort map[int]polDesc
+	subsets map[string]polDesc
+}
+
+// the distribute rules of subset v2 of service w (they replace the rule-level ones for that subset)
+var distRulesV2 = []distRule{
+	{"r1/*", []distTo{{"r1/z2/*", 100}}},
+	{"r2/*", []distTo{{"r1/*", 60}, {"r2/*", 40}}},
+}
+
+// drOf: the world's DestinationRules.  a: nothing at rule level, port 81 and subset v2 demand a minimum health
+// percentage; m: rule level demands one, port 81 (port-level settings do not inherit) and subset v1 (overrides it
+// with 0) do not; w: distribute at rule level, none on port 81, other rules for subset v2.
+func drOf(d svcDesc, variant int) drDesc {
+	switch {
+	case d.name == "a":
+		return drDesc{
+			top:     polDesc{set: true},
+			topPort: map[int]polDesc{81: {set: true, outlier: true, minHealth: 20, lb: 1}},
+			subsets: map[string]polDesc{"v2": {set: true, outlier: true, minHealth: 30, lb: 1}},
+		}
+	case d.minHealth:
+		return drDesc{
+			top:     polDesc{set: true, outlier: true, minHealth: 50, lb: 1},
+			topPort: map[int]polDesc{81: {set: true}},
+			subsets: map[string]polDesc{"v1": {set: true, outlier: true, minHealth: 0, lb: 1}},
+		}
+	case d.distribute:
+		return drDesc{
+			top:     polDesc{set: true, lb: 2, dist: distRules(variant)},
+			topPort: map[int]polDesc{81: {set: true}},
+			subsets: map[string]polDesc{"v2": {set: true, lb: 2, dist: distRulesV2}},
+		}
+	}
+	return drDesc{}
+}
+
+// effPolicy: the policy in force for a subset and port, written from the DestinationRule API documentation:
+// port-level settings replace the destination-level ones for their port (nothing is inherited); a subset-level
+// policy overrides, field by field, what it sets.  variant -1: the rule does not exist.
+func effPolicy(d svcDesc, variant int, subset string, port int) polDesc {
+	if variant == -1 {
+		return polDesc{}
+	}
+	dr := drOf(d, variant)
+	base := dr.top
+	if pp, ok := dr.topPort[port]; ok && dr.top.set {
+		base = pp
+	}
+	sub, ok := dr.subsets[subset]
+	if !ok || !sub.set {
+		return base
+	}
+	if !base.set {
+		return sub
+	}
+	m := base
+	if sub.outlier {
+		m.outlier, m.minHealth = true, sub.minHealth
+	}
+	if sub.lb != 0 {
+		m.lb, m.dist = sub.lb, sub.dist
+	}
+	return m
+}
+
 func encDist(rules []distRule) string {
 	if len(rules) == 0 {
 		return "-"
@@ -406,29 +486,48 @@ func makeDR(d svcDesc, variant int) config.Config {
 		subsets = append(subsets, &networking.Subset{Name: n, Labels: subsetLabels(variant, n)})
 	}
 	dr := &networking.DestinationRule{Host: svcHost(d.name), Subsets: subsets}
-	if d.distribute {
-		var dist []*networking.LocalityLoadBalancerSetting_Distribute
-		for _, r := range distRules(variant) {
-			to := map[string]uint32{}
-			for _, t := range r.to {
-				to[t.pat] = t.w
-			}
-			dist = append(dist, &networking.LocalityLoadBalancerSetting_Distribute{From: r.from, To: to})
+	desc := drOf(d, variant)
+	parts := func(p polDesc) (*networking.OutlierDetection, *networking.LoadBalancerSettings) {
+		var od *networking.OutlierDetection
+		var lb *networking.LoadBalancerSettings
+		if p.outlier {
+			od = &networking.OutlierDetection{MinHealthPercent: p.minHealth}
 		}
-		dr.TrafficPolicy = &networking.TrafficPolicy{
-			LoadBalancer: &networking.LoadBalancerSettings{
-				LocalityLbSetting: &networking.LocalityLoadBalancerSetting{Distribute: dist},
-			},
+		switch p.lb {
+		case 1:
+			lb = &networking.LoadBalancerSettings{LocalityLbSetting: &networking.LocalityLoadBalancerSetting{Enabled: wrapperspb.Bool(false)}}
+		case 2:
+			var dist []*networking.LocalityLoadBalancerSetting_Distribute
+			for _, r := range p.dist {
+				to := map[string]uint32{}
+				for _, t := range r.to {
+					to[t.pat] = t.w
+				}
+				dist = append(dist, &networking.LocalityLoadBalancerSetting_Distribute{From: r.from, To: to})
+			}
+			lb = &networking.LoadBalancerSettings{LocalityLbSetting: &networking.LocalityLoadBalancerSetting{Distribute: dist}}
+		}
+		return od, lb
+	}
+	if desc.top.set {
+		od, lb := parts(desc.top)
+		dr.TrafficPolicy = &networking.TrafficPolicy{OutlierDetection: od, LoadBalancer: lb}
+		ports := make([]int, 0, len(desc.topPort))
+		for port := range desc.topPort {
+			ports = append(ports, port)
+		}
+		sort.Ints(ports)
+		for _, port := range ports {
+			pod, plb := parts(desc.topPort[port])
+			dr.TrafficPolicy.PortLevelSettings = append(dr.TrafficPolicy.PortLevelSettings, &networking.TrafficPolicy_PortTrafficPolicy{
+				Port: &networking.PortSelector{Number: uint32(port)}, OutlierDetection: pod, LoadBalancer: plb,
+			})
 		}
 	}
-	if d.minHealth {
-		// outlier detection with a minimum health percentage: unhealthy endpoints are not served even when
-		// the process default says so; locality load balancing off so that failover priorities stay out
-		dr.TrafficPolicy = &networking.TrafficPolicy{
-			OutlierDetection: &networking.OutlierDetection{MinHealthPercent: 50},
-			LoadBalancer: &networking.LoadBalancerSettings{
-				LocalityLbSetting: &networking.LocalityLoadBalancerSetting{Enabled: wrapperspb.Bool(false)},
-			},
+	for _, ss := range subsets {
+		if p, ok := desc.subsets[ss.Name]; ok && p.set {
+			od, lb := parts(p)
+			ss.TrafficPolicy = &networking.TrafficPolicy{OutlierDetection: od, LoadBalancer: lb}
 		}
 	}
 	return config.Config{
@@ -690,7 +789,20 @@ func parseQuery(t string) (claQuery, bool) {
 func (w *claWorld) generator() *pxds.EdsGenerator {
 	// wired as in pilot/pkg/bootstrap (InitGenerators): generator cache == the cache the index invalidates.
 	// (The fake server itself pairs its generator with the cache of a different Environment.)
-	return &pxds.EdsGenerator{Cache: w.env().Cache, EndpointIndex: w.env().EndpointIndex}
+	return &pxds.EdsGenerator{Cache: &countingCache{XdsCache: w.env().Cache}, EndpointIndex: w.env().EndpointIndex}
+}
+
+// countingCache: the real cache, with the generator's hits and misses counted (coverage counters of the oracle run).
+type countingCache struct{ model.XdsCache }
+
+func (c *countingCache) Get(e model.XdsCacheEntry) *discovery.Resource {
+	r := c.XdsCache.Get(e)
+	if r != nil {
+		stats["eds-cache-hit"]++
+	} else {
+		stats["eds-cache-miss"]++
+	}
+	return r
 }
 
 // push runs one EDS push for the proxy and returns the assignments it holds afterwards.
@@ -720,6 +832,14 @@ func (w *claWorld) push(name, mode string, qs []claQuery) []*endpoint.ClusterLoa
 		req = c.pending
 	}
 	c.pending = nil
+	switch {
+	case req == nil:
+		stats["push-nothing-pending"]++
+	case req.Forced:
+		stats["push-forced"]++
+	default:
+		stats["push-partial"]++
+	}
 	if req != nil {
 		r := *req
 		r.Push = w.env().PushContext()
@@ -975,8 +1095,8 @@ func genClaEp(r *wire.Rng, world int) *model.IstioEndpoint {
 
 // unhealthyOK: are unhealthy endpoints served for the service?  unh 0: no; 1: by default, unless its
 // DestinationRule demands a minimum health percentage; 2: always (forced process-wide).
-func unhealthyOK(unh int, d svcDesc, variant int) bool {
-	return unh == 2 || unh == 1 && !(d.minHealth && variant != -1)
+func unhealthyOK(unh int, pol polDesc) bool {
+	return unh == 2 || unh == 1 && !(pol.outlier && pol.minHealth > 0)
 }
 
 func queryTok(d svcDesc, port int, subset string, unh int, variant int, p proxyDesc) string {
@@ -984,14 +1104,15 @@ func queryTok(d svcDesc, port int, subset string, unh int, variant int, p proxyD
 	if n, ok := claPorts[port]; ok && !d.dns && !d.missing {
 		portName = wire.Enc(n)
 	}
+	pol := effPolicy(d, variant, subset, port)
 	dist := "-"
-	if d.distribute {
-		dist = encDist(distRules(variant))
+	if pol.lb == 2 {
+		dist = encDist(pol.dist)
 	}
 	return strings.Join([]string{
 		wire.Enc(svcHost(d.name)), claNs, strconv.Itoa(port), wire.Enc(subset),
 		portName, encLabels(subsetLabels(variant, subset)), wire.B(d.clusterLocal), wire.B(d.nodeLocal),
-		wire.B(unhealthyOK(unh, d, variant)), wire.B(d.persistent),
+		wire.B(unhealthyOK(unh, pol)), wire.B(d.persistent),
 		wire.Enc(p.locality), dist,
 	}, "|")
 }
@@ -1100,6 +1221,13 @@ func genCla(seed uint64, n int, outp string) {
 		nops := 2 + r.Intn(6)
 		for i := 0; i < nops; i++ {
 			d := wire.Pick(r, svcs)
+			// (half of the time a persistent-session service if the case has one: it serves draining endpoints, so an
+			// added draining endpoint is visible in what is served)
+			for _, pd := range svcs {
+				if pd.persistent && r.Chance(1, 2) {
+					d = pd
+				}
+			}
 			k := pair{svcHost(d.name), claNs}
 			sk := wire.Pick(r, shards)
 			key := [2]pair{k, sk}
@@ -1108,7 +1236,17 @@ func genCla(seed uint64, n int, outp string) {
 				out.Line("noise")
 			case x < 11:
 				var eps []*model.IstioEndpoint
-				if len(last[key]) > 0 && r.Chance(2, 3) {
+				if len(last[key]) > 0 && (r.Chance(1, 8) || d.persistent && r.Chance(1, 3)) {
+					// the previous report plus one new endpoint that is neither healthy nor unhealthy (draining /
+					// terminating): a push is due - persistent-session services serve draining endpoints
+					for _, e := range last[key] {
+						eps = append(eps, e.DeepCopy())
+					}
+					ne := genClaEp(r, world)
+					ne.ServicePortName = "http"
+					ne.HealthStatus = wire.Pick(r, []model.HealthStatus{model.Draining, model.Draining, model.Terminating})
+					eps = append(eps, ne)
+				} else if len(last[key]) > 0 && r.Chance(2, 3) {
 					eps = mutate(r, last[key])
 					for _, e := range eps {
 						e.Namespace = claNs
@@ -1278,7 +1416,7 @@ func oracleMember(q claQuery, unh int, d svcDesc, variant int, p proxyDesc, sk p
 	}
 	drainingLabel := e.Labels[features.DrainingLabel] != ""
 	switch {
-	case e.HealthStatus == model.UnHealthy && !unhealthyOK(unh, d, variant):
+	case e.HealthStatus == model.UnHealthy && !unhealthyOK(unh, effPolicy(d, variant, q.subset, q.port)):
 		return false
 	case e.HealthStatus == model.Terminating:
 		return false
@@ -1528,6 +1666,7 @@ func oracleCla(in, outp string) {
 			// reports' endpoints that belong to that service port (legacy port key first, else port name)
 			// and carry the labels
 			got := strings.TrimPrefix(c.apply(f), "eps ")
+			stats["judged-service-endpoints"]++
 			var exp []string
 			port := atoi(f[3])
 			for _, eps := range want[pair{wire.Dec(f[1]), f[2]}] {
@@ -1570,10 +1709,14 @@ func oracleCla(in, outp string) {
 			if !ok {
 				continue
 			}
-			if r := c.apply(f); r == "crash" {
+			r := c.apply(f)
+			if r == "crash" {
 				fail("never-crashes", strings.Join(f, " "))
 			} else if strings.HasPrefix(r, "Push!") {
 				fail("cache-update-no-push", strings.Join(f[:3], " "))
+			}
+			if o.kind == "upd" {
+				stats["push-type-"+strings.SplitN(r, " ", 2)[0]]++
 			}
 			stats["op-"+f[0]]++
 			if o.kind == "prune" && len(o.keep) > 0 {
@@ -1619,6 +1762,7 @@ func oracleCla(in, outp string) {
 		}
 		p := proxyByName(f[1])
 		stats["pushes"]++
+		stats["pushes-proxy-"+f[1]]++
 		stats["pushes-"+f[2]]++
 		stats["pushes-world-"+strconv.Itoa(world)]++
 		if prevPush != "" && prevPush != f[1] && (prevPush == "p1" || f[1] == "p1") {
@@ -1643,6 +1787,7 @@ func oracleCla(in, outp string) {
 			}
 		}
 		if noAddr {
+			stats["pushes-not-judged-endpoint-without-address"]++
 			// still push (the connection state must follow), but do not judge
 			func() {
 				defer func() { _ = recover() }()
@@ -1668,6 +1813,8 @@ func oracleCla(in, outp string) {
 		}
 		for i, q := range qs {
 			cla := served[i]
+			stats["queries-svc-"+svcByHost(q.svc).name]++
+			stats["judged-served-is-current"]++
 			fresh := c.w.direct(f[1], q)
 			if showCLA(cla) != showCLA(fresh) {
 				fail("served-is-current", fmt.Sprintf("%s %s: proxy holds %s, the index gives %s", f[1], q.cluster(), showCLA(cla), showCLA(fresh)))
@@ -1677,8 +1824,8 @@ func oracleCla(in, outp string) {
 			exp := expected(world, q, unh, d, drVar[d.name], paOff, p, want[pair{q.svc, q.ns}])
 			// locality-weighted distribution: the first rule whose source matches the proxy's locality
 			var rule *distRule
-			if d.distribute {
-				for _, r := range distRules(drVar[d.name]) {
+			if pol := effPolicy(d, drVar[d.name], q.subset, q.port); pol.lb == 2 {
+				for _, r := range pol.dist {
 					if localityMatches(p.locality, r.from) {
 						rule = &r
 						break
@@ -1740,7 +1887,11 @@ func oracleCla(in, outp string) {
 					fail("weights-consistent", fmt.Sprintf("locality %s weight %d, endpoints sum to %d", loc, g.GetLoadBalancingWeight().GetValue(), sum))
 				}
 			}
+			if rule != nil && world == 1 && anyEmpty {
+				stats["skipped-distribute-weights-emptied-locality"]++
+			}
 			if rule != nil && !(world == 1 && anyEmpty) {
+				stats["judged-distribute-weights"]++
 				// distribute-weights: a target's percentage is split among the localities it names in proportion to
 				// their own weights (rounded up), computed without any overflow.  (Multi-network with a locality whose
 				// members were all left out: not judged, see notes - the emptied group counts with weight 1.)
@@ -1776,6 +1927,14 @@ func oracleCla(in, outp string) {
 						stats["unix-socket-endpoints-served-world-"+strconv.Itoa(world)]++
 					}
 				}
+			}
+			if world == 0 {
+				stats["judged-membership-exact"]++
+			} else {
+				stats["judged-gateway-weights"]++
+			}
+			if rule == nil {
+				stats["judged-weights-consistent"]++
 			}
 			for l := range locs {
 				a, b := append([]string{}, exp[l]...), append([]string{}, got[l]...)
